@@ -78,5 +78,4 @@ theorem deps_exact (p : List (Nat × Nat)) (h : InRangeP p 0) : DExact p (depsL 
   have := dexact_foldl p [] [1] dexact_nil (by simpa using h)
   simpa [depsL] using this
 
-#print axioms deps_exact
 end P.Prim
